@@ -19,7 +19,7 @@ Proof.
   destruct (h_op h =? op_clear); [left; cbn [snd]; apply c_clear_sub|].
   destruct (h_op h =? op_store) eqn:E.
   - apply N.eqb_eq in E. unfold srv_store.
-    destruct (negb ((h_u2 h + h_u3 h + h_u4 h) mod W32 =? h_size h) || (h_u2 h =? 0)); [left; cbn [snd]; tauto|].
+    destruct (negb (h_u2 h + h_u3 h + h_u4 h =? h_size h) || (h_u2 h =? 0)); [left; cbn [snd]; tauto|].
     destruct (load_triggers [] (take (h_u4 h) (drop (h_u2 h + h_u3 h) p))); [|left; cbn [snd]; tauto].
     right. split; [exact E|]. cbn [snd]. eexists. eexists. eexists. reflexivity.
   - destruct (h_op h =? op_stats); [destruct (c_stats c)|]; left; cbn [snd]; tauto.
